@@ -244,6 +244,10 @@ func (e *Engine) Reload(d int, twin bool) {
 			src.M.TwinDiverged = true
 			e.Stats["load_tie_break_differs"]++
 			tie = true
+			// C11 says "the same tip": which of two exactly tied tips a running repository reports is
+			// free (C01), but Save followed by Load must not change the choice
+			e.fail("C11", "same-tip", "loaded-tip-differs/other-tip-of-equal-work",
+				fmt.Sprintf("original tip %s, loaded tip %s, both with work %s", a.Last, b.Last, a.Work))
 		}
 	}
 	if tie {
